@@ -24,6 +24,10 @@ class TrieDict(object):
         self.__root = TrieDictNode()
 
     def __len__(self):
+        # NOTE: counters only cover children, the empty prefix lives in the root
+        if self.__root.value is not NULL:
+            return self.__root.counter + 1
+
         return self.__root.counter
 
     def __setitem__(self, prefix, value):
